@@ -52,7 +52,9 @@ type ReplayItem struct {
 }
 
 type Explorer struct {
-	solver *Solver
+	solver   *Solver
+	z3       *Solver
+	fpSolver *Solver // cvc5, used for queries that contain floating-point terms
 	// per instance
 	pending    [][]decision
 	inst       *InstanceResult
@@ -103,6 +105,32 @@ type InstanceResult struct {
 	SampleVectors [][]ReplayItem `json:"sample_vectors,omitempty"`
 	Pending     [][]decision   `json:"pending,omitempty"`
 	Stubs       map[string]int `json:"stubs,omitempty"`
+}
+
+// check routes a query to cvc5 when it contains floating-point terms (z3 4.8.12 is far slower there).
+func (x *Explorer) check(pc []*Term, extra []*Term, want []*Term) (SatResult, map[string]uint64) {
+	fp := false
+	for _, t := range extra {
+		if t.fp {
+			fp = true
+		}
+	}
+	if !fp {
+		for _, t := range pc {
+			if t.fp {
+				fp = true
+				break
+			}
+		}
+	}
+	if fp {
+		if x.fpSolver == nil {
+			x.fpSolver = newSolver("cvc5", x.solver.timeout)
+		}
+		r, m := x.fpSolver.check(pc, extra, want)
+		return r, m
+	}
+	return x.solver.check(pc, extra, want)
 }
 
 func (x *Explorer) beginPath(script []decision) {
@@ -228,7 +256,7 @@ func (x *Explorer) fetchModelVars() []*Term { return x.vars }
 
 // feasible decides pc ∧ c; on sat the model is adopted when adopt is set.
 func (x *Explorer) feasible(c *Term, adopt bool) SatResult {
-	res, m := x.solver.check(x.pc, []*Term{c}, x.vars)
+	res, m := x.check(x.pc, []*Term{c}, x.vars)
 	if res == Unknown {
 		x.inst.Unknown++
 	}
@@ -302,7 +330,7 @@ func (x *Explorer) branch(c *Term) bool {
 			other = c
 		}
 		save := x.model
-		res, _ := x.solver.check(x.pc, []*Term{other}, nil)
+		res, _ := x.check(x.pc, []*Term{other}, nil)
 		x.model = save
 		if res == Unknown {
 			x.inst.Unknown++
@@ -320,7 +348,7 @@ func (x *Explorer) branch(c *Term) bool {
 		}
 		// c feasible (model adopted if sat); is ¬c feasible too?
 		save := x.model
-		rf, _ := x.solver.check(x.pc, []*Term{mkNot(c)}, nil)
+		rf, _ := x.check(x.pc, []*Term{mkNot(c)}, nil)
 		x.model = save
 		if rf == Unknown {
 			x.inst.Unknown++
@@ -410,7 +438,7 @@ func (x *Explorer) concretize(t *Term, what string) uint64 {
 			}()
 		}
 		if !found {
-			res, m := x.solver.check(x.pc, []*Term{excl}, x.vars)
+			res, m := x.check(x.pc, []*Term{excl}, x.vars)
 			switch res {
 			case Unsat:
 				panic(pathEnd{"concretize: exhausted"})
@@ -467,7 +495,7 @@ func (x *Explorer) concretizeIn(t *Term, lo, hi int64, what string) int64 {
 
 func (x *Explorer) modelValue(t *Term) (v uint64, ok bool) {
 	if x.model == nil {
-		res, m := x.solver.check(x.pc, nil, x.vars)
+		res, m := x.check(x.pc, nil, x.vars)
 		if res != Sat {
 			return 0, false
 		}
@@ -582,7 +610,7 @@ func (x *Explorer) fail(id, kind, detail string, cond *Term, site string) {
 			res, m = Sat, x.model
 		} else {
 			x.inst.AssertQ++
-			res, m = x.solver.check(x.pc, []*Term{q}, x.vars)
+			res, m = x.check(x.pc, []*Term{q}, x.vars)
 		}
 		switch res {
 		case Sat:
@@ -601,7 +629,7 @@ func (x *Explorer) fail(id, kind, detail string, cond *Term, site string) {
 			continue
 		}
 		x.inst.AssertQ++
-		res, m := x.solver.check(x.pc, []*Term{q}, x.vars)
+		res, m := x.check(x.pc, []*Term{q}, x.vars)
 		if res == Sat {
 			x.inst.KnownSeen[k.id] = &Violation{AssertID: id, Kind: kind, Detail: detail, Vector: x.vector(m), Known: k.id, PanicSite: site}
 		} else if res == Unknown {
@@ -613,7 +641,7 @@ func (x *Explorer) fail(id, kind, detail string, cond *Term, site string) {
 func (x *Explorer) sampleInputs() string {
 	m := x.model
 	if m == nil {
-		res, mm := x.solver.check(x.pc, nil, x.vars)
+		res, mm := x.check(x.pc, nil, x.vars)
 		if res != Sat {
 			return "(no model)"
 		}
@@ -629,7 +657,7 @@ func (x *Explorer) sampleInputs() string {
 func (x *Explorer) sampleVector() []ReplayItem {
 	m := x.model
 	if m == nil {
-		res, mm := x.solver.check(x.pc, nil, x.vars)
+		res, mm := x.check(x.pc, nil, x.vars)
 		if res != Sat {
 			return nil
 		}
